@@ -3,10 +3,10 @@
 import json, os, sys
 HERE = os.path.dirname(os.path.dirname(os.path.abspath(__file__)))
 
-# The alphabets named in the texts below are those of the first build; four seeding rounds and an input round widened
+# The alphabets named in the texts below are those of the first build; five seeding rounds, an input round and a statement-coverage measurement widened
 # them (DESIGN §12).  Sizes quoted here are lower bounds.
 SUFFIX = (" [The alphabets were widened after this text was written (families F7, reverse direction, 16-dimension layout, "
-          "embedded interfaces, further hook / converter / path shapes, environment and file-system states - DESIGN §12); counts "
+          "embedded interfaces, further hook / converter / path shapes, environment and file-system states, sibling methods and decoy interfaces with contrasting settings, runs onto earlier outputs, second identical runs, edits of other packages - DESIGN §12); counts "
           "quoted here are lower bounds. The authoritative statement of what a run enumerated is the `rule` and `bounds` of its evidence file.]")
 
 # id -> (category, technique, text, note, design_ref)
